@@ -26,6 +26,24 @@ fn check_pair(acc: &mut Acc, idx: usize, a: &Shape, b: &Shape, gia: &Geometry<i6
             ("intersects[enum]", exp[0], guard(|| intersects_enum(&a.g, &b.g))),
             ("contains[enum]", exp[1], guard(|| contains_enum(&a.g, &b.g))),
         ];
+        // the f32 instantiation of the same impls (lattice coordinates are exact in f32) on every fourth pair
+        if idx % 4 == 0 {
+            let (fa, fb) = (to_f32(&a.g), to_f32(&b.g));
+            for (op, e, g) in [
+                ("intersects<f32>", exp[0], guard(|| intersects_f32(&fa, &fb))),
+                ("contains<f32>", exp[1], guard(|| contains_f32(&fa, &fb))),
+                ("within<f32>", exp[2], guard(|| within_f32(&fa, &fb))),
+            ] {
+                acc.evals += 1;
+                let gs = match g {
+                    Ok(v) => v.to_string(),
+                    Err(p) => format!("panic:{}", p),
+                };
+                if gs != e.to_string() {
+                    acc.viol(format!("{} {}x{} matrix={} expected={} got={}", op, a.ty(), b.ty(), truth, e, gs), idx, || json!({"a": a.wkt(), "b": b.wkt(), "true_matrix": truth, "expected": e, "got": gs}));
+                }
+            }
+        }
         // Contains on the integer instantiation, where the impl exists for a non-float scalar
         {
             #[allow(unused_imports)]
